@@ -4,7 +4,7 @@ A maintainer who extracts a block of a long function into a private worker (or t
 the body of the long function must see the same thing before and after.  `inlined(repo, fi)` returns a copy of the function's AST in which
 every statement of the form
 
-    helper(a, b)            T = helper(a, b)            T1, T2 = helper(a, b)
+    helper(a, b)            T = helper(a, b)            T1, T2 = helper(a, b)            return helper(a, b)
 
 whose callee is a plain module-level function of the package (resolved by `Repo.find_funcs`: same module, imported, or moved), is not a
 generator, has no decorators, takes only named parameters and returns at most once, as its last statement, is replaced by the callee's
@@ -62,7 +62,10 @@ class _Subst(ast.NodeTransformer):
 def _expand(repo, module, stmt, counter, self_name):
     """Replacement statement list for `stmt`, or None."""
     call = tgt = None
-    if isinstance(stmt, ast.Expr) and isinstance(stmt.value, ast.Call):
+    is_return = False
+    if isinstance(stmt, ast.Return) and isinstance(stmt.value, ast.Call):
+        call, is_return = stmt.value, True
+    elif isinstance(stmt, ast.Expr) and isinstance(stmt.value, ast.Call):
         call = stmt.value
     elif isinstance(stmt, ast.Assign) and len(stmt.targets) == 1 and isinstance(stmt.value, ast.Call):
         call, tgt = stmt.value, stmt.targets[0]
@@ -97,9 +100,19 @@ def _expand(repo, module, stmt, counter, self_name):
     sfx = f'__i{counter[0]}'
     stored = _stored_names(g)
     direct, rename, prelude = {}, {}, []
+    def simple(e):
+        # a name, a literal, an attribute chain over a name, or the negation of one: substituting it for the parameter reads the same
+        while isinstance(e, ast.UnaryOp) and isinstance(e.op, ast.Not):
+            e = e.operand
+        while isinstance(e, ast.Attribute):
+            e = e.value
+        return isinstance(e, (ast.Name, ast.Constant))
     for p, a in bound.items():
-        if p not in stored and isinstance(a, (ast.Name, ast.Constant)):
+        if p not in stored and simple(a):
             direct[p] = a
+        elif is_return and isinstance(a, ast.Name):
+            # tail call: nothing of the caller runs afterwards, so a parameter the worker rebinds may simply keep the caller's name
+            rename[p] = a.id
         else:
             rename[p] = p + sfx
             prelude.append(ast.copy_location(ast.Assign(targets=[ast.Name(id=p + sfx, ctx=ast.Store())], value=copy.deepcopy(a)), stmt))
@@ -112,6 +125,14 @@ def _expand(repo, module, stmt, counter, self_name):
     sub = _Subst(direct, rename)
     body = [sub.visit(s) for s in body]
     out = prelude
+    if is_return:
+        # `return helper(...)`: the worker's own trailing return becomes the caller's
+        out += body
+        if not (body and isinstance(body[-1], ast.Return)):
+            out.append(ast.copy_location(ast.Return(value=None), stmt))
+        for s_ in out:
+            ast.fix_missing_locations(s_)
+        return out
     if body and isinstance(body[-1], ast.Return):
         ret = body.pop()
         out += body
